@@ -232,3 +232,38 @@ def install_np_array_stub(ctx):
 def db_items(database):
     """[(key array, outputs dict)] in insertion order."""
     return [(k.wrapped_array, v) for k, v in database.items()]
+
+
+def exact_const(ctx, v):
+    """A finite concrete number as an exact symbolic constant (symbolic mode) so that quotients such as 1/5 stay rational
+    instead of becoming the float64 nearest to 0.2; the float itself in concrete mode."""
+    if not ctx.symbolic:
+        return float(v)
+    from symgem.core import SymReal, lift
+
+    return SymReal(lift(v))
+
+
+def exact_bounds(ctx, ds, info):
+    """Replace the concrete finite bounds of ``ds`` (built by :func:`build_space`) by exact symbolic constants.
+
+    Same stub as in build_space (bounds written into ``Variable.__dict__``), value-preserving; ``info`` is updated alike.
+    """
+    if not ctx.symbolic:
+        return
+    off = 0
+    for name, size in zip(info.names, info.sizes):
+        var = ds._variables[name]
+        for attr, lst in (("lower_bound", info.lb), ("upper_bound", info.ub)):
+            vals = []
+            changed = False
+            for c in range(size):
+                v = lst[off + c]
+                if isinstance(v, (int, float, np.integer, np.floating)) and np.isfinite(v):
+                    v = exact_const(ctx, v)
+                    lst[off + c] = v
+                    changed = True
+                vals.append(v)
+            if changed:
+                var.__dict__[attr] = SymArray(vals)
+        off += size
